@@ -27,7 +27,9 @@ RULE = ('FFT cases: every shape in {1..9}^2 (all parity pairs, square and not) p
         'given as tuple/list/int/np.int64: |H| = 1 at every sample of the transfer '
         'function, energy, identity at z=0, inverse at -z, additivity in z (tolerance widened by 16 eps x largest phase), '
         'the precomputed tf= branch of angular_spectrum and of Wavefront.free_space (with nonsense for the clobbered arguments), '
-        'Wavefront.free_space(dz, Q) incl. the returned object; the literal "A_0 f == f" is evaluated for every Q and is filtered as '
+        'Wavefront.free_space(dz, Q) incl. the returned object and a +z / -z chain; wvl, dx, z (and Q of focus, the scalars of the '
+        'fixed-sampling calls) also as 0-d / one-element ndarrays REUSED across the calls of a case: unchanged afterwards, repeated '
+        'call repeats its answer; the literal "A_0 f == f" is evaluated for every Q and is filtered as '
         'the known finding asp-pads-never-crops exactly when the output equals pad2d(f, Q). '
         'Non-trivial = not 1x1; distinct = distinct (item, input) tuples')
 ASSUMPTIONS = ['scipy.fft.fft2/ifft2 compute the iterated 1-D DFT sums (1/(MN) on the inverse, 1/sqrt(MN) with norm=ortho); '
@@ -141,12 +143,16 @@ def pred_fft(c, verbose=False):
     config.precision = c.get('precision', 64)
     try:
         Q = c['Q']
+        if c.get('scalar_form') == '0d':
+            Q = np.array(float(Q))           # the same 0-d array object handed to every call below
         E0 = energy(f)
         out = {}
         try:
             foc = pr.focus(f, Q)
             unf = pr.unfocus(f, Q)
             pad = ft.pad2d(f, Q=Q) if Q != 1 else f
+            if float(Q) != float(c['Q']) or not np.array_equal(foc, pr.focus(f, Q)):
+                return False, 'focus / unfocus / pad2d modified Q in place, or a second focus call with the same objects differs', {}
         except Exception as ex:
             return False, f'raised {type(ex).__name__}: {str(ex)[:160]}', {}
         for nm, a in (('focus', foc), ('unfocus', unf), ('pad2d', pad)):
@@ -253,6 +259,9 @@ def pred_band(c, verbose=False):
         if M == N:
             dx_in, efl, wvl = 0.731, 123.4, 0.55
             dx_out = wvl * efl / (dx_in * M)
+            if c['seed'] % 3 == 0:           # the scalars as 0-d arrays, the same objects for all eight calls
+                dx_in, efl, wvl, dx_out = (np.array(v) for v in (dx_in, efl, wvl, dx_out))
+            scal0 = tuple(float(v) for v in (dx_in, efl, wvl, dx_out))
             sh_out = (shift[0] * dx_out, shift[1] * dx_out)
             sh_in = (shift[0] * dx_in, shift[1] * dx_in)
             for method in ('mdft', 'czt'):
@@ -263,6 +272,8 @@ def pred_band(c, verbose=False):
                     b4 = pr.unfocus_fixed_sampling(V, dx_out, efl, wvl, dx_in, (m, n), shift=sh_in, method=method)
                 except Exception as ex:
                     return False, f'fixed-sampling round trip ({method}) raised {type(ex).__name__}: {str(ex)[:140]}', {}
+                if tuple(float(v) for v in (dx_in, efl, wvl, dx_out)) != scal0:
+                    return False, f'a fixed-sampling call ({method}) modified a caller-owned scalar argument in place', {}
                 for nm, x in (('focus_fixed_sampling(unfocus_fixed_sampling(f))', b3), ('unfocus_fixed_sampling(focus_fixed_sampling(f))', b4)):
                     ok, err = close(x, f, at)
                     if not ok:
@@ -311,6 +322,15 @@ def pred_asp(c, verbose=False):
     wvl, dx, z, z2, Q = c['wvl'], c['dx'], c['z'], c['z2'], c['Q']
     Qn = 2 if Q == 'default' else Q
     known = 0
+    # scalar physical parameters handed over as 0-d / one-element ndarrays, the SAME objects reused by every call below:
+    # they must come back unchanged, and a repeated call must repeat its answer
+    scf = c.get("scalar_form")
+    wrap = (lambda v: np.array(float(v))) if scf == "0d" else (lambda v: np.array([float(v)])) if scf == "1el" else (lambda v: v)
+    vals0 = (float(wvl), float(dx), float(z), float(z2))
+    wvl, dx, z, z2 = wrap(wvl), wrap(dx), wrap(z), wrap(z2)
+
+    def params_intact():
+        return all(float(np.asarray(o).ravel()[0]) == v for o, v in zip((wvl, dx, z, z2), vals0))
     config.precision = c.get('precision', 64)
     try:
         try:
@@ -320,7 +340,16 @@ def pred_asp(c, verbose=False):
             samples = {'tuple': tuple(shp), 'list': list(shp), 'npint': np.int64(shp[0]), 'int': int(shp[0])}[
                 sform if (shp[0] == shp[1] or sform in ('tuple', 'list')) else 'tuple']
             tf = pr.angular_spectrum_transfer_function(samples, wvl, dx, z)
+            if not params_intact():
+                return False, ('angular_spectrum_transfer_function modified a caller-owned argument (wvl / dx / z given as '
+                               f'{"0-d" if scf == "0d" else "one-element"} ndarray) in place'), {}
+            tf_again = pr.angular_spectrum_transfer_function(samples, wvl, dx, z)
+            if not np.array_equal(tf, tf_again):
+                return False, 'a second angular_spectrum_transfer_function call with the same argument objects differs from the first', {}
             a = _asp_call(pr, f, wvl, dx, z, Q)
+            if not params_intact() or not np.array_equal(a, _asp_call(pr, f, wvl, dx, z, Q)):
+                return False, ('angular_spectrum modified a caller-owned scalar argument in place, or a second call with the same '
+                               'argument objects differs from the first'), {}
             a0 = _asp_call(pr, f, wvl, dx, 0.0, Q)
             # inverse and additivity on the grid the propagation works on
             b = pr.angular_spectrum(pr.angular_spectrum(g, wvl, dx, z, Q=1), wvl, dx, -z, Q=1)
@@ -332,6 +361,11 @@ def pred_asp(c, verbose=False):
             w0 = pr.Wavefront(np.asarray(f, dtype=complex), wvl, dx)
             wq = w0.free_space(dz=z, Q=Qn)
             wt = pr.Wavefront(np.asarray(g, dtype=complex), wvl, dx).free_space(tf=tf)
+            # a chain of Wavefront.free_space calls: +z then -z comes back (the Wavefront carries the caller's wvl / dx objects)
+            wg = pr.Wavefront(np.asarray(g, dtype=complex), wvl, dx)
+            wchain = wg.free_space(dz=z, Q=1).free_space(dz=-z, Q=1)
+            if not params_intact():
+                return False, 'a free-space call modified a caller-owned scalar argument (wvl / dx / z) in place', {}
         except Exception as ex:
             return False, f'raised {type(ex).__name__}: {str(ex)[:160]}', {}
         if tf.shape != tuple(shp):
@@ -369,7 +403,15 @@ def pred_asp(c, verbose=False):
         ok, rel = eclose(energy(btf), energy(g), et)
         if not ok:
             return False, f'angular_spectrum(f, tf=tf) changes the energy by a factor {energy(btf) / energy(g):.12g}', {}
-        checks = [('A_-z A_z f != f', b, g, at), ('angular_spectrum(f, tf=H(z)) != angular_spectrum(f, z)', btf, az, at),
+        # float64 configuration: tf(-z) is the exact conjugate of tf(z), the inverse is exact.  Single-precision configuration: the
+        # phase is formed from float32 frequencies and (with NumPy-array scalars) mixed-precision products, so tf(z) tf(-z) = 1 only
+        # to ~eps32 x phase: same conditioning-aware tolerance as additivity
+        inv_tol = at_add if et == ETOL32 else at
+        checks = []
+        if inv_tol < 1e-3:
+            checks += [('A_-z A_z f != f', b, g, inv_tol), ('Wavefront.free_space(+z).free_space(-z) != f', wchain.data, g, inv_tol)]
+        checks += [
+                  ('angular_spectrum(f, tf=H(z)) != angular_spectrum(f, z)', btf, az, at),
                   ('Wavefront.free_space(tf=H(z)) != angular_spectrum(f, z)', wt.data, az, at),
                   ('Wavefront.free_space(dz, Q) != angular_spectrum(f, z, Q)', wq.data, a, at)]
         if at_add < 1e-3:       # beyond that the phases themselves are lost to rounding: additivity is not testable
@@ -378,7 +420,8 @@ def pred_asp(c, verbose=False):
             ok, err = close(x, y, tl)
             if not ok:
                 return False, f'{nm}: max err {err:.3g} (tolerance {tl:.3g})', {}
-        if not (wq.dx == dx and wq.wavelength == wvl and wq.space == w0.space):
+        if not (float(np.asarray(wq.dx).ravel()[0]) == vals0[1] and float(np.asarray(wq.wavelength).ravel()[0]) == vals0[0]
+                and wq.space == w0.space):
             return False, f'Wavefront.free_space returned dx={wq.dx}, wavelength={wq.wavelength}, space={wq.space!r}', {}
         return True, '', {'tf': tf, 'a': az, 'g': g, 'btf': btf, 'tol_model': max(at, 32 * eps * phase), 'known': known}
     finally:
@@ -404,7 +447,7 @@ def band_pairs(maxn=9, maxM=24):
 def gen_fft(r, shape, big=False):
     return {'shape': list(shape), 'Q': [1, 2, 3, 1.5, 2.37, 1.2][int(r.integers(6))] if not big else [1, 2, 1.5][int(r.integers(3))],
             'dtype': gen_dtype(r), 'precision': 32 if r.random() < 0.15 else 64, 'layout': H1.gen_layout(r),
-            'seed': int(r.integers(1 << 30))}
+            'scalar_form': '0d' if r.random() < 0.25 else None, 'seed': int(r.integers(1 << 30))}
 
 
 def gen_band(r, pairs):
@@ -448,6 +491,7 @@ def gen_asp(r, shape):
     return {'shape': list(shape), 'wvl': wvl, 'dx': dx, 'z': zz(), 'z2': zz(),
             'Q': [1, 1, 1, 1.5, 2, 3, 'default'][int(r.integers(7))],
             'samples_form': ['tuple', 'list', 'npint', 'int'][int(r.integers(4))],
+            'scalar_form': [None, None, None, '0d', '1el'][int(r.integers(5))],
             'dtype': gen_dtype(r, (0.55, 0.2, 0.05, 0.05, 0.08, 0.07)), 'precision': 32 if r.random() < 0.12 else 64,
             'layout': H1.gen_layout(r), 'seed': int(r.integers(1 << 30)), 'regime': regime}
 
@@ -637,9 +681,9 @@ def search(ctx, hints):
         for wvl, dx in ((0.6, 0.1), (0.6328, 1e-4), (1.55, 6e-4), (0.5, 5e-4), (1.0, 50.0)):
             unit = 2 * dx * dx / (np.pi * wvl / 1e3)
             for z, z2 in ((0.0, unit), (5.0 * unit, -2.0 * unit), (-3.0 * unit, 3.0 * unit), (1e5 * unit, unit)):
-                for Q in (1, 'default', 1.5):
+                for Q, sf in ((1, None), (1, '0d'), (1, '1el'), ('default', None), (1.5, '0d')):
                     c = {'shape': [m, n], 'wvl': wvl, 'dx': dx, 'z': z, 'z2': z2, 'Q': Q, 'dtype': 'complex128', 'precision': 64,
-                         'seed': 3, 'samples_form': 'npint' if m == n else 'list'}
+                         'seed': 3, 'samples_form': 'npint' if m == n else 'list', 'scalar_form': sf}
                     ok, detail, _ = pred_asp(c)
                     if not ok:
                         return {'item': 'free_space', 'input': c, 'detail': detail}
